@@ -283,7 +283,66 @@ def writer_literals() -> Dict[str, str]:
     return {"cont": cont[0], "hash": "--hash=", "comment": cmts[0], "via1": ws[0], "viaN": ws[1], "via_item": ws[2]}
 
 
+SK_EXPLANATION_STR = """def __str__(self):
+    write_to = StringIO()
+    constraints = req_compile.dists.build_explanation(self.node)
+    if len(constraints) == K0:
+        if self.multiline:
+            write_to.write(K1)
+        write_to.write(f'{next(iter(constraints))}')
+    else:
+        if self.multiline:
+            write_to.write(K2)
+        for idx, constraint in enumerate(sorted(constraints, key=lambda val: val.lower())):
+            if self.multiline:
+                write_to.write(K3)
+            write_to.write(constraint)
+            if idx != len(constraints) - K4:
+                write_to.write(K5 if self.multiline else K6)
+    return write_to.getvalue()"""
+
+FIND_LINKS_UPDATE = "find_links.update({os.path.normpath(input_file.parent / link): solution.parent for link in new_links})"
+FIND_LINKS_PASSED = "dict(sorted(find_links.items()))"
+
+
+def explanation_render() -> None:
+    """ExplanationRender.__str__ is what model/BzlLockC19.v via_lines transcribes (one requirer on
+    the `# via` line, otherwise one `#   ` line per requirer - every element of the explanation,
+    duplicates included - separated by newlines, none after the last)."""
+    mod = T.parse("req_compile/cmdline.py")
+    k = T.klass(mod, "ExplanationRender")
+    fs = [n for n in k.body if isinstance(n, ast.FunctionDef) and n.name == "__str__"]
+    if len(fs) != 1:
+        raise TranslateError("ExplanationRender.__str__ not found")
+    sk, consts = skeleton(fs[0])
+    if sk != SK_EXPLANATION_STR:
+        import difflib
+        d = "\n".join(list(difflib.unified_diff(SK_EXPLANATION_STR.split("\n"), sk.split("\n"), "recorded", "current", lineterm=""))[:30])
+        raise TranslateError("ExplanationRender.__str__ differs from the recorded skeleton:\n" + d)
+    if consts[0] != 1 or consts[4] != 1 or consts[5] != "\n":
+        raise TranslateError(f"ExplanationRender.__str__ literals changed: {consts!r}")
+
+
+def find_links_mapping() -> None:
+    """private/compiler.py compile_requirements: the wheel directories of all inputs are collected
+    under their normalised path (so one directory reached through several spellings is written as
+    one --find-links directive) and made relative to the solution file's directory."""
+    f = _fn("private/compiler.py", "compile_requirements")
+    ups = [ast.unparse(n) for n in ast.walk(f) if isinstance(n, ast.Call) and isinstance(n.func, ast.Attribute)
+           and n.func.attr == "update" and ast.unparse(n.func.value) == "find_links"]
+    if ups != [FIND_LINKS_UPDATE]:
+        raise TranslateError(f"compile_requirements: find-links collection changed: {ups!r}")
+    calls = [n for n in ast.walk(f) if isinstance(n, ast.Call) and isinstance(n.func, ast.Name) and n.func.id == "build_repo"]
+    if len(calls) != 1:
+        raise TranslateError("compile_requirements: expected one build_repo call")
+    kw = {k.arg: ast.unparse(k.value) for k in calls[0].keywords}
+    if kw.get("find_links") != FIND_LINKS_PASSED:
+        raise TranslateError(f"compile_requirements: build_repo(find_links=...) changed: {kw.get('find_links')!r}")
+
+
 def gen_bzl_consts() -> str:
+    explanation_render()
+    find_links_mapping()
     pc = _check_skeleton("private/reqs_repo.bzl", "parse_constraint", SK_PARSE_CONSTRAINT, PC_FIXED, 51)
     pl = _check_skeleton("private/reqs_repo.bzl", "parse_lockfile", SK_PARSE_LOCKFILE, PL_FIXED, 17)
     if not isinstance(pc[0], int) or pc[0] < 0 or pc[0] > 50:
